@@ -2,6 +2,7 @@
 mod rng;
 mod reprs;
 mod e_fmt;
+mod e_buf;
 
 use std::io::{BufWriter, Write};
 
@@ -20,6 +21,9 @@ fn main() {
     // quiet panics: outcomes are reported through catch_unwind
     std::panic::set_hook(Box::new(|_| {}));
     match cmd {
+        "buf-random" => e_buf::buf_random(&mut out, seed, n, arg(&args, "--depth", 3)),
+        "buf-codec" => e_buf::buf_codec(&mut out, seed, n),
+        "buf-replay" => e_buf::buf_replay(&mut out),
         "escapes" => e_fmt::escapes(&mut out),
         "fmt" => e_fmt::fmt_cases(&mut out, seed, n, !flag(&args, "--no-pairs")),
         #[cfg(feature = "serde")]
